@@ -250,6 +250,12 @@ def markets(b):
                     c = coef_in_row(b, s.GetVariableName('F'), [m.GetVariableName(v), cross])
                     if c is None or c != 1:
                         sup_booked = False
+        # every supplier the user registered with AddSupplier (with a rule or as the residual one) is a participant: the
+        # market has an allocation variable for it, whatever its rule is worth
+        for sref in (getattr(b, 'stated_suppliers', None) or {}).get(ref, []):
+            st_sup = b.sectors.get(sref)
+            if st_sup is None or ('SUP_' + st_sup.FullCode) not in m.EquationBlock.GetEquationList():
+                sup_booked = False
         rec['supplier_matches'] = sup_match
         rec['supplier_booked'] = sup_booked
         out.append(rec)
@@ -387,7 +393,7 @@ def meaning_preserved(b, seed=1):
     return sorted(set(bad))
 
 
-_STATED_ONLY = ('GIFT', 'XTRA', 'TWICE')   # variables that nothing but the user's own statements define
+_STATED_ONLY = ('GIFT', 'XTRA', 'TWICE', 'DBL', 'NIL')   # variables that nothing but the user's own statements define
 
 
 def _stated_meaning(b, rnd, names):
